@@ -89,6 +89,7 @@ func genC08(t *rapid.T) *C08Case {
 		n = rapid.IntRange(1, 120).Draw(t, "nAny")
 	}
 	cfg.HBInt = n
+	cfg.ObserverReturnsFalse = rapid.IntRange(0, 3).Draw(t, "observerReturnsFalse") == 0
 	g := &hgen{t: t, cfg: cfg, inSeq: 1}
 	c := &C08Case{N: n, Periods: rapid.IntRange(3, 40).Draw(t, "periods")}
 	c.Cfg = cfg
